@@ -1220,12 +1220,13 @@ fn check_calls(ctx: &mut Ctx, done: Vec<Done>) {
 // C05 mandatory signed headers
 
 fn required_ok(always: &[String], ifreq: &[String], prefixes: &[String], headers: &[(String, Vec<u8>)], signed: &[String]) -> bool {
+    // declared names match case-insensitively — in the full (Unicode) sense: a Kelvin sign is a 'k'
     let names: Vec<String> = headers.iter().map(|(n, _)| n.to_ascii_lowercase()).collect();
     let has = |n: &str| signed.iter().any(|s| s == n);
     (has("host") || has(":authority"))
-        && always.iter().all(|a| has(&a.to_ascii_lowercase()))
-        && ifreq.iter().all(|c| !names.contains(&c.to_ascii_lowercase()) || has(&c.to_ascii_lowercase()))
-        && prefixes.iter().all(|p| names.iter().all(|n| !n.starts_with(&p.to_ascii_lowercase()) || has(n)))
+        && always.iter().all(|a| has(&a.to_lowercase()))
+        && ifreq.iter().all(|c| !names.contains(&c.to_lowercase()) || has(&c.to_lowercase()))
+        && prefixes.iter().all(|p| names.iter().all(|n| !n.starts_with(&p.to_lowercase()) || has(n)))
 }
 
 /// A random add / remove / use history of the growable requirements container over a pool of overlapping names
@@ -1266,12 +1267,16 @@ pub fn random_req_history(rng: &mut Rng, len: usize) -> (Vec<(char, String)>, Ve
 pub fn c05(ctx: &mut Ctx) {
     let mut rng = ctx.rng.fork();
     let mut jobs = Vec::new();
-    let pool = ["X-Amz-Meta-A", "x-amz-meta-b", "Accept", "My-Header1", "X-Amz-Target", "User-Agent", "Content-Type", "X-Amz-Date", "Host", "X-Absent"];
-    let prefixes_pool = ["X-Amz-", "x-amz-meta-", "My-", "Z-", "X-AMZ-TARGET", "a", ""];
+    // the last entries of each pool carry a Kelvin sign (U+212A, whose lower case is the ASCII 'k') for a 'K'
+    let pool = ["X-Amz-Meta-A", "x-amz-meta-b", "Accept", "My-Header1", "X-Amz-Target", "User-Agent", "Content-Type", "X-Amz-Date", "Host", "X-Absent", "X-Amz-\u{212a}ey", "x-amz-\u{212a}ey"];
+    let prefixes_pool = ["X-Amz-", "x-amz-meta-", "My-", "Z-", "X-AMZ-TARGET", "a", "", "X-Amz-\u{212a}", "x-amz-\u{212a}e"];
     let n = ctx.n(600, 12000);
     for i in 0..n {
         let mut l = random_logical(&mut rng);
         l.use_date_header = false;
+        if rng.chance(1, 4) {
+            l.headers.push((rng.pick(&["X-Amz-Key", "x-amz-key", "Etag"]).to_string(), b"kv".to_vec()));
+        }
         let mix = |rng: &mut Rng, s: &str| -> String { s.chars().map(|c| if rng.chance(1, 2) { c.to_ascii_uppercase() } else { c.to_ascii_lowercase() }).collect() };
         let mut always: Vec<String> = Vec::new();
         let mut ifreq: Vec<String> = Vec::new();
@@ -1296,14 +1301,14 @@ pub fn c05(ctx: &mut Ctx) {
         let now = now_for(&l, 0);
         if comply {
             for a in &always {
-                let a = a.to_ascii_lowercase();
+                let a = a.to_lowercase();
                 if !l.signed.contains(&a) {
                     l.signed.push(a);
                 }
             }
             for (n, _) in l.headers.clone() {
                 let nl = n.to_ascii_lowercase();
-                let wanted = ifreq.iter().any(|c| c.to_ascii_lowercase() == nl) || prefixes.iter().any(|p| nl.starts_with(&p.to_ascii_lowercase()));
+                let wanted = ifreq.iter().any(|c| c.to_lowercase() == nl) || prefixes.iter().any(|p| nl.starts_with(&p.to_lowercase()));
                 if wanted && !l.signed.contains(&nl) {
                     l.signed.push(nl);
                 }
@@ -1324,7 +1329,7 @@ pub fn c05(ctx: &mut Ctx) {
             let vec_remove = |l: &mut Vec<String>, h: &str| l.retain(|x| x.to_ascii_lowercase() != h.to_ascii_lowercase());
             for _ in 0..rng.below(9) {
                 let exact_lower = rng.chance(1, 3);
-                let pick: &str = if rng.chance(1, 4) { *rng.pick(&prefixes_pool) } else { *rng.pick(&pool) };
+                let pick: &str = if rng.chance(1, 4) { *rng.pick(&prefixes_pool[..7]) } else { *rng.pick(&pool[..10]) };
                 let name = if exact_lower { pick.to_ascii_lowercase() } else { mix(&mut rng, pick) };
                 // 'V': the container is used for a validation at this point of its history
                 let code = *rng.pick(&['A', 'A', 'I', 'I', 'P', 'a', 'i', 'p', 'V', 'V']);
@@ -1351,7 +1356,7 @@ pub fn c05(ctx: &mut Ctx) {
                 }
                 for (n, _) in l.headers.clone() {
                     let nl = n.to_ascii_lowercase();
-                    let wanted = ifreq.iter().any(|c| c.to_ascii_lowercase() == nl) || prefixes.iter().any(|p| nl.starts_with(&p.to_ascii_lowercase()));
+                    let wanted = ifreq.iter().any(|c| c.to_lowercase() == nl) || prefixes.iter().any(|p| nl.starts_with(&p.to_lowercase()));
                     if wanted && !l.signed.contains(&nl) {
                         l.signed.push(nl);
                     }
